@@ -1,8 +1,995 @@
 import Grass.Proto
-/- Core `CssTree` — stub; replaced by the model (see DESIGN.md §8). -/
+/-
+  C04 core — nesting, `&`, @at-root and bubbling at-rules.
+
+  Two independent descriptions of what a rule tree compiles to:
+
+  (a) `flattenSpec`  — "flatten by hand": a direct structural recursion from the source rule tree
+      to the ordered list of blocks (at-rule context, selector, declarations).
+  (b) `treeBuild`    — grass's algorithm, written from the Rust text function by function:
+        crates/compiler/src/evaluate/css_tree.rs      index-addressed tree, parent/child maps, `finish`
+        crates/compiler/src/evaluate/visitor.rs       `add_child` (:1629), `with_parent` (:1668),
+            `visit_ruleset` (:2900), `visit_style` (:3024), `visit_media_rule` (:1377),
+            `visit_supports_rule` (:484), `visit_unknown_at_rule` (:1479),
+            `trim_included` (:1078), `visit_at_root_rule` (:1119), `with_scope_for_at_root` (:1214)
+        crates/compiler/src/selector/list.rs          `resolve_parent_selectors` (:157), `flatten_vertically` (:263)
+        crates/compiler/src/selector/compound.rs      `resolve_parent_selectors` (:109)
+        crates/compiler/src/ast/css.rs                `is_invisible` (:54), `copy_without_children` (:70)
+        crates/compiler/src/ast/stmt.rs               `AtRootQuery` (:215)
+        crates/compiler/src/lib.rs :205, serializer.rs :1113   invisible statements are not written
+      followed by `observe` = blocks of the visible part of `finish`.
+
+  Order convention of the property ("the same list of (context, selector, declarations)"):
+  a rule's own declarations form ONE block placed where the rule starts (declarations written
+  after a nested rule join that block, in source order); nested rules, bubbled at-rules and
+  @at-root bodies follow in source order.  Blocks without declarations are not part of the list
+  (empty rules vanish).  Adjacent blocks with equal context and selector are NOT merged: grass
+  emits one block per source construct and so does `flattenSpec`.
+
+  Simple selectors, declaration names/values and @supports conditions are opaque strings; media
+  queries are lists of feature numbers (`(f0) and (f1)`), so merging nested queries is plain
+  concatenation (the general merge is property C17).
+-/
 namespace Grass.CssTree
 
+/-! ## Selectors (only what parent resolution needs) -/
+
+/-- A compound selector: an optional leading `&` (`some none` = `&`, `some (some s)` = `&s`)
+    followed by simple selectors kept as text (`a`, `.x`, `#i`). -/
+structure Compound where
+  par : Option (Option String)
+  simples : List String
+  deriving DecidableEq, Repr, Inhabited
+
+inductive Comp where
+  | comb (c : String)            -- `>`, `+`, `~`
+  | cmp (c : Compound)
+  deriving DecidableEq, Repr, Inhabited
+
+abbrev Complex := List Comp       -- descendant combinator = adjacency
+abbrev SelList := List Complex
+
+inductive Err where
+  | topLevelParent        -- "Top-level selectors may not contain the parent selector"
+  | incompatibleParent    -- "Parent … is incompatible with this selector"
+  | declOutsideRule       -- "Declarations may only be used within style rules"
+  | unreachable           -- a Rust `unreachable!()` / `unwrap()` on None would fire
+  deriving DecidableEq, Repr, Inhabited
+
+def mapE {α β : Type} (f : α → Except Err β) : List α → Except Err (List β)
+  | [] => .ok []
+  | a :: as =>
+    match f a with
+    | .error e => .error e
+    | .ok b =>
+      match mapE f as with
+      | .error e => .error e
+      | .ok bs => .ok (b :: bs)
+
+def compHasParent : Comp → Bool
+  | .cmp c => c.par.isSome
+  | .comb _ => false
+
+def complexHasParent (c : Complex) : Bool := c.any compHasParent
+
+/-- compound.rs:176–204: the parent's last compound absorbs the suffix and the rest of the
+    compound that contained `&`. -/
+def mergeLast (sfx : Option String) (extra : List String) (complex : Complex) : Except Err Complex :=
+  match complex.getLast? with
+  | some (.cmp last) =>
+    match sfx with
+    | none => .ok (complex.dropLast ++ [.cmp { last with simples := last.simples ++ extra }])
+    | some s =>
+      match last.simples.getLast? with
+      | some e => .ok (complex.dropLast ++ [.cmp { last with simples := last.simples.dropLast ++ [e ++ s] ++ extra }])
+      | none => .error .unreachable
+  | _ => .error .incompatibleParent
+
+/-- `CompoundSelector::resolve_parent_selectors` (compound.rs:109); `none` = no `&` inside. -/
+def resolveCompound (parent : SelList) (c : Compound) : Except Err (Option (List Complex)) :=
+  match c.par with
+  | none => .ok none
+  | some sfx =>
+    if sfx.isNone && c.simples.isEmpty then .ok (some parent)
+    else
+      match mapE (mergeLast sfx c.simples) parent with
+      | .error e => .error e
+      | .ok r => .ok (some r)
+
+/-- One iteration of the `for component in complex.components` loop (list.rs:204). -/
+def stepComp (parent : SelList) (acc : List Complex) (comp : Comp) : Except Err (List Complex) :=
+  match comp with
+  | .comb _ => .ok (acc.map (· ++ [comp]))
+  | .cmp c =>
+    match resolveCompound parent c with
+    | .error e => .error e
+    | .ok none => .ok (acc.map (· ++ [comp]))
+    | .ok (some resolved) => .ok (acc.flatMap (fun nc => resolved.map (nc ++ ·)))
+
+def foldComps (parent : SelList) : List Complex → List Comp → Except Err (List Complex)
+  | acc, [] => .ok acc
+  | acc, c :: cs =>
+    match stepComp parent acc c with
+    | .error e => .error e
+    | .ok acc' => foldComps parent acc' cs
+
+/-- list.rs:180–247, one complex selector of the nested rule. -/
+def resolveComplex (implicit : Bool) (parent : SelList) (complex : Complex) : Except Err (List Complex) :=
+  if !complexHasParent complex then
+    if !implicit then .ok [complex] else .ok (parent.map (· ++ complex))
+  else foldComps parent [[]] complex
+
+def heads {α : Type} (qs : List (List α)) : List α := qs.filterMap List.head?
+def tails {α : Type} (qs : List (List α)) : List (List α) := qs.map List.tail
+
+def fvAux {α : Type} : Nat → List (List α) → List α
+  | 0, _ => []
+  | n + 1, qs => heads qs ++ fvAux n (tails qs)
+
+def maxLen {α : Type} (qs : List (List α)) : Nat := qs.foldr (fun q m => max q.length m) 0
+
+/-- `flatten_vertically` (list.rs:263): first elements of every queue, then second elements, … -/
+def flattenVertically {α : Type} (qs : List (List α)) : List α := fvAux (maxLen qs) qs
+
+/-- `SelectorList::resolve_parent_selectors` (list.rs:157). -/
+def resolveList (parent : Option SelList) (implicit : Bool) (sel : SelList) : Except Err SelList :=
+  match parent with
+  | none => if sel.any complexHasParent then .error .topLevelParent else .ok sel
+  | some p =>
+    match mapE (resolveComplex implicit p) sel with
+    | .error e => .error e
+    | .ok qs => .ok (flattenVertically qs)
+
+/-- "By hand": textually put the parent complex `p` in the place of `&` (or in front). -/
+def substCompound (p : Complex) (k : Compound) : Except Err Complex :=
+  match k.par with
+  | none => .ok [.cmp k]
+  | some sfx => if sfx.isNone && k.simples.isEmpty then .ok p else mergeLast sfx k.simples p
+
+def substComplex (p : Complex) : Complex → Except Err Complex
+  | [] => .ok []
+  | .comb c :: rest =>
+    match substComplex p rest with
+    | .error e => .error e
+    | .ok r => .ok (.comb c :: r)
+  | .cmp k :: rest =>
+    match substCompound p k with
+    | .error e => .error e
+    | .ok h =>
+      match substComplex p rest with
+      | .error e => .error e
+      | .ok r => .ok (h ++ r)
+
+/-- The nested complex `c` under the single parent complex `p`. -/
+def combine (p : Complex) (c : Complex) : Except Err Complex :=
+  if !complexHasParent c then .ok (p ++ c) else substComplex p c
+
+/-- number of compounds of `c` that contain `&` -/
+def parentRefs (c : Complex) : Nat := (c.filter compHasParent).length
+
+/-! ## Source trees -/
+
+mutual
+  /-- `name: value { body }`; a plain declaration has an empty body, a pure nested property has
+      no value. -/
+  inductive Decl where
+    | mk (name : String) (value : Option String) (body : Decls)
+  inductive Decls where
+    | nil
+    | cons (d : Decl) (ds : Decls)
+end
+
+structure Query where         -- AtRootQuery (stmt.rs:215)
+  incl : Bool
+  names : List String
+  deriving DecidableEq, Repr, Inhabited
+
+mutual
+  inductive Stmt where
+    | decl (d : Decl)
+    | rule (sel : SelList) (body : Stmts)
+    | media (qs : List (List Nat)) (body : Stmts)
+    | supports (cond : String) (body : Stmts)
+    | unknown (name params : String) (body : Stmts)
+    | atroot (q : Option Query) (body : Stmts)
+  inductive Stmts where
+    | nil
+    | cons (s : Stmt) (ss : Stmts)
+end
+
+/-! ## CSS nodes, blocks -/
+
+inductive Kind where
+  | rule (sel : SelList)
+  | decl (name value : String)
+  | media (qs : List (List Nat))
+  | supports (cond : String)
+  | unknown (name params : String)
+  deriving DecidableEq, Repr, Inhabited
+
+def Kind.isRule : Kind → Bool | .rule _ => true | _ => false
+def Kind.isUnknown : Kind → Bool | .unknown _ _ => true | _ => false
+def Kind.isMedia : Kind → Bool | .media _ => true | _ => false
+
+/-- One entry of the observation: at-rule context (outermost first), selector (`none` =
+    declarations directly inside an at-rule), declarations in order. -/
+structure Block where
+  ctx : List Kind
+  sel : Option SelList
+  decls : List (String × String)
+  deriving DecidableEq, Repr, Inhabited
+
+def Block.nonEmpty (b : Block) : Bool := !b.decls.isEmpty
+
+/-! ## At-root queries (stmt.rs:222–266) -/
+
+def Query.dflt : Query := { incl := false, names := ["rule"] }
+def Query.all (q : Query) : Bool := q.names.contains "all"
+def Query.rule (q : Query) : Bool := q.names.contains "rule"
+def Query.excludesName (q : Query) (n : String) : Bool := (q.all || q.names.contains n) != q.incl
+def Query.excludesStyleRules (q : Query) : Bool := (q.all || q.rule) != q.incl
+def Query.excludes (q : Query) : Kind → Bool
+  | .rule _ => if q.all then !q.incl else q.excludesStyleRules
+  | .media _ => if q.all then !q.incl else q.excludesName "media"
+  | .supports _ => if q.all then !q.incl else q.excludesName "supports"
+  | .unknown n _ => if q.all then !q.incl else q.excludesName n
+  | .decl _ _ => if q.all then !q.incl else false
+
+/-! ## Nested property names -/
+
+def joinDash : List String → String
+  | [] => ""
+  | [a] => a
+  | a :: b :: rest => a ++ "-" ++ joinDash (b :: rest)
+
+mutual
+  /-- By hand: `a: {b: {c: v}}` is the declaration `a-b-c: v`; `path` = enclosing names. -/
+  def declSpec (path : List String) : Decl → List (String × String)
+    | .mk n v body =>
+      (match v with | some v => [(joinDash (path ++ [n]), v)] | none => []) ++ declsSpec (path ++ [n]) body
+  def declsSpec (path : List String) : Decls → List (String × String)
+    | .nil => []
+    | .cons d ds => declSpec path d ++ declsSpec path ds
+end
+
+mutual
+  /-- `visit_style` (visitor.rs:3024): `declaration_name` carried by the visitor, joined with
+      `format!("{}-{}")` at :3041; returns the declarations in the order they are added. -/
+  def visitDecl (declName : Option String) : Decl → List (String × String)
+    | .mk n v body =>
+      let name := match declName with | some p => p ++ "-" ++ n | none => n
+      (match v with | some v => [(name, v)] | none => []) ++ visitDecls (some name) body
+  def visitDecls (declName : Option String) : Decls → List (String × String)
+    | .nil => []
+    | .cons d ds => visitDecl declName d ++ visitDecls declName ds
+end
+
+/-! ## (a) flattenSpec — flatten by hand -/
+
+def mergeQ (a b : List (List Nat)) : List (List Nat) := a.flatMap (fun x => b.map (fun y => x ++ y))
+
+def innermostMedia (frames : List Kind) : Option (List (List Nat)) :=
+  frames.reverse.findSome? (fun k => match k with | .media qs => some qs | _ => none)
+
+/-- A nested `@media` is intersected with the nearest enclosing `@media` and replaces the media
+    rules it sits in directly; `none` = empty intersection (rule dropped). -/
+def pushMedia (frames : List Kind) (qs : List (List Nat)) : Option (List Kind) :=
+  match innermostMedia frames with
+  | none => some (frames ++ [.media qs])
+  | some cur =>
+    let m := mergeQ cur qs
+    if m.isEmpty then none
+    else some ((frames.reverse.dropWhile Kind.isMedia).reverse ++ [.media m])
+
+structure SCtx where
+  frames : List Kind             -- at-rule context, outermost first
+  sel : Option SelList           -- enclosing style rule, resolved
+  exclStyle : Bool               -- an @at-root took us out of it
+  inUnknown : Bool
+  deriving Repr
+
+def SCtx.init : SCtx := { frames := [], sel := none, exclStyle := false, inUnknown := false }
+def SCtx.ruleHere (c : SCtx) : Bool := c.sel.isSome && !c.exclStyle
+def SCtx.home (c : SCtx) : Option SelList := if c.ruleHere then c.sel else none
+
+abbrev SpecRes := Except Err (List (String × String) × List Block)
+
+/-- The body of a construct that opens a new block: its own declarations become the block. -/
+def wrapBlock (c : SCtx) : SpecRes → SpecRes
+  | .error e => .error e
+  | .ok (ds, bs) => .ok ([], { ctx := c.frames, sel := c.home, decls := ds } :: bs)
+
+def seqRes : SpecRes → SpecRes → SpecRes
+  | .error e, _ => .error e
+  | .ok _, .error e => .error e
+  | .ok (d1, b1), .ok (d2, b2) => .ok (d1 ++ d2, b1 ++ b2)
+
+def atRootCtx (c : SCtx) (q : Query) : SCtx :=
+  let frames' := c.frames.filter (fun k => !q.excludes k)
+  { frames := frames', sel := c.sel, exclStyle := c.exclStyle || q.excludesStyleRules,
+    inUnknown := c.inUnknown && frames'.any Kind.isUnknown }
+
+/-- `@at-root` that excludes nothing of the current context is transparent. -/
+def atRootTransparent (c : SCtx) (q : Query) : Bool :=
+  c.frames.all (fun k => !q.excludes k) && (!c.ruleHere || !q.excludesStyleRules) &&
+    (c.ruleHere || !c.frames.isEmpty)
+
+mutual
+  /-- own declarations of the enclosing block, and the blocks that follow it -/
+  def specStmt (c : SCtx) : Stmt → SpecRes
+    | .decl d => if c.ruleHere || c.inUnknown then .ok (declSpec [] d, []) else .error .declOutsideRule
+    | .rule sel body =>
+      match resolveList c.sel (!c.exclStyle) sel with
+      | .error e => .error e
+      | .ok sel' =>
+        let c' := { c with sel := some sel', exclStyle := false }
+        wrapBlock c' (specStmts c' body)
+    | .media qs body =>
+      match pushMedia c.frames qs with
+      | none => .ok ([], [])
+      | some frames' =>
+        let c' := { c with frames := frames' }
+        wrapBlock c' (specStmts c' body)
+    | .supports cond body =>
+      let c' := { c with frames := c.frames ++ [.supports cond] }
+      wrapBlock c' (specStmts c' body)
+    | .unknown n p body =>
+      let c' := { c with frames := c.frames ++ [.unknown n p], inUnknown := true }
+      wrapBlock c' (specStmts c' body)
+    | .atroot q body =>
+      let q := q.getD Query.dflt
+      let c' := atRootCtx c q
+      if atRootTransparent c q then specStmts c' body else wrapBlock c' (specStmts c' body)
+  def specStmts (c : SCtx) : Stmts → SpecRes
+    | .nil => .ok ([], [])
+    | .cons s ss => seqRes (specStmt c s) (specStmts c ss)
+end
+
+def flattenSpec (src : Stmts) : Except Err (List Block) :=
+  match specStmts SCtx.init src with
+  | .error e => .error e
+  | .ok (_, bs) => .ok (bs.filter Block.nonEmpty)
+
+/-! ## (b) treeBuild — grass's algorithm -/
+
+/-- css_tree.rs:9 — `stmts[i]`, `child_to_parent[i]`, `parent_to_child[i]` in one record.
+    `children = []` ⇔ no entry in `parent_to_child`. -/
+structure NodeRec where
+  stmt : Option Kind              -- None = tombstone (ROOT)
+  parent : Option Nat
+  children : List Nat
+  deriving DecidableEq, Repr, Inhabited
+
+abbrev Tree := List NodeRec
+
+def Tree.init : Tree := [{ stmt := none, parent := none, children := [] }]     -- css_tree.rs:23
+
+def kindAt (t : Tree) (i : Nat) : Option Kind := (t[i]?).bind (·.stmt)
+def parentOf (t : Tree) (i : Nat) : Option Nat := (t[i]?).bind (·.parent)
+def childrenOf (t : Tree) (i : Nat) : List Nat := ((t[i]?).map (·.children)).getD []
+def hasChildren (t : Tree) (i : Nat) : Bool := !(childrenOf t i).isEmpty
+
+/-- `CssTree::add_child` (css_tree.rs:104). -/
+def addRaw (t : Tree) (k : Kind) (p : Nat) : Tree × Nat :=
+  ((t.modify p (fun r => { r with children := r.children ++ [t.length] }))
+      ++ [{ stmt := some k, parent := some p, children := [] }], t.length)
+
+/-- `CssTree::add_stmt` (css_tree.rs:135). -/
+def addStmt (t : Tree) (k : Kind) (parent : Option Nat) : Tree × Nat := addRaw t k (parent.getD 0)
+
+/-- `link_child_to_parent` (css_tree.rs:114): the old parent keeps its stale entry. -/
+def linkChild (t : Tree) (child parent : Nat) : Tree :=
+  (t.modify parent (fun r => { r with children := r.children ++ [child] })).modify child
+    (fun r => { r with parent := some parent })
+
+/-- `has_following_sibling` (css_tree.rs:122). -/
+def hasFollowingSibling (t : Tree) (c : Nat) : Bool :=
+  if c = 0 then false
+  else match parentOf t c with
+    | none => false
+    | some p => (childrenOf t p).getLast? != some c
+
+/-- The `through` closures passed to `with_parent`. -/
+inductive Through where
+  | styleRule                              -- CssStmt::is_style_rule
+  | never                                  -- |_| false
+  | media (sources : List (List Nat))      -- visitor.rs:1462
+  deriving Repr
+
+def Through.test : Through → Kind → Bool
+  | .styleRule, .rule _ => true
+  | .media _, .rule _ => true
+  | .media srcs, .media qs => !srcs.isEmpty && qs.all (fun q => srcs.contains q)
+  | _, _ => false
+
+/-- the `while parent != ROOT && through(parent)` loop of `add_child` (visitor.rs:1641) -/
+def climb (t : Tree) (th : Through) : Nat → Nat → Nat
+  | 0, p => p
+  | f + 1, p =>
+    if p = 0 then p
+    else match kindAt t p, parentOf t p with
+      | some k, some g => if th.test k then climb t th f g else p
+      | _, _ => p
+
+/-- `Visitor::add_child` (visitor.rs:1629). -/
+def addChild (t : Tree) (parent : Option Nat) (k : Kind) (th : Through) : Tree × Nat :=
+  match parent with
+  | none => addStmt t k none
+  | some 0 => addStmt t k (some 0)
+  | some p =>
+    let p' := climb t th t.length p
+    if hasFollowingSibling t p' then
+      match kindAt t p', parentOf t p' with
+      | some pk, some g =>
+        let (t1, cp) := addRaw t pk g            -- copy_without_children, added after the sibling
+        addRaw t1 k cp
+      | _, _ => addRaw t k p'
+    else addRaw t k p'
+
+/-- Which of the two deviations found in `visit_at_root_rule` the model reproduces
+    (`true` = the code as it stands). -/
+structure AsFound where
+  outerCopyParent : Bool      -- visitor.rs:1190 returns the outermost copy as the new parent
+  keepInUnknown : Bool        -- visitor.rs:1244 todo: IN_UNKNOWN_AT_RULE is not cleared
+  deriving DecidableEq, Repr
+
+def AsFound.code : AsFound := { outerCopyParent := true, keepInUnknown := true }
+def AsFound.specified : AsFound := { outerCopyParent := false, keepInUnknown := false }
+
+/-- Dynamically scoped visitor state (saved and restored around every callback). -/
+structure VCtx where
+  parent : Option Nat                    -- self.parent
+  styleRule : Option SelList             -- style_rule_ignoring_at_root
+  atRootExcl : Bool                      -- AT_ROOT_EXCLUDING_STYLE_RULE
+  inUnknown : Bool                       -- IN_UNKNOWN_AT_RULE
+  mq : Option (List (List Nat))          -- media_queries
+  mqSources : List (List Nat)            -- media_query_sources
+  deriving Repr
+
+def VCtx.init : VCtx :=
+  { parent := none, styleRule := none, atRootExcl := false, inUnknown := false, mq := none, mqSources := [] }
+
+def VCtx.styleRuleExists (c : VCtx) : Bool := !c.atRootExcl && c.styleRule.isSome     -- visitor.rs:3020
+
+/-- `visit_style` adds each declaration with `add_stmt(…, self.parent)` (visitor.rs:3058). -/
+def addDecls (t : Tree) (parent : Option Nat) : List (String × String) → Tree
+  | [] => t
+  | (n, v) :: ds => addDecls (addStmt t (.decl n v) parent).1 parent ds
+
+/-- the `while let Some(parent_idx)` loop of `visit_at_root_rule` (visitor.rs:1137) -/
+def includedFrom (t : Tree) (q : Query) : Nat → Option Nat → List Nat
+  | 0, _ => []
+  | _, none => []
+  | f + 1, some p =>
+    match kindAt t p with
+    | some k => (if !q.excludes k then [p] else []) ++ includedFrom t q f (parentOf t p)
+    | none => []
+
+/-- inner `while parent != nodes[i]` of `trim_included`; `(moved, node reached)` -/
+def trimClimb (t : Tree) (target : Nat) : Nat → Option Nat → Option Bool
+  | 0, _ => none
+  | _, none => none
+  | f + 1, some p =>
+    if p = target then some false
+    else match parentOf t p with
+      | none => none
+      | some g => (trimClimb t target f (some g)).map (fun _ => true)
+
+def trimLoop (t : Tree) : List Nat → Nat → Option Nat → Option Nat → Option (Option Nat × Option Nat)
+  | [], _, parent, inner => some (parent, inner)
+  | n :: ns, i, parent, inner =>
+    match trimClimb t n t.length parent with
+    | none => none
+    | some moved =>
+      let inner := if moved then none else inner
+      let inner := match inner with | some x => some x | none => some i
+      match parentOf t n with
+      | none => none
+      | some g => trimLoop t ns (i + 1) (some g) inner
+
+/-- `trim_included` (visitor.rs:1078); `none` = an `unreachable!()` would fire. -/
+def trimIncluded (t : Tree) (parent : Option Nat) (nodes : List Nat) : Option Nat :=
+  if nodes.isEmpty then some 0
+  else match trimLoop t nodes 0 parent none with
+    | none => none
+    | some (p, inner) => if p != some 0 then some 0 else inner.bind (nodes[·]?)
+
+/-- visitor.rs:1176: copies of the remaining included nodes, each linked above the previous. -/
+def copyOuter (t : Tree) (outer : Nat) : List Nat → Option (Tree × Nat)
+  | [] => some (t, outer)
+  | n :: ns =>
+    match kindAt t n with
+    | none => none
+    | some k =>
+      let (t1, idx) := addStmt t k none
+      copyOuter (linkChild t1 outer idx) idx ns
+
+/-- visitor.rs:1168–1198: the node the @at-root body is attached to. -/
+def atRootParent (af : AsFound) (t : Tree) (root : Nat) (included : List Nat) : Option (Tree × Option Nat) :=
+  match included with
+  | [] =>
+    match kindAt t root with
+    | some k => let (t1, idx) := addStmt t k none; some (t1, some idx)
+    | none => some (t, none)
+  | first :: rest =>
+    match kindAt t first with
+    | none => none
+    | some k =>
+      let (t1, inner) := addStmt t k none
+      match copyOuter t1 inner rest with
+      | none => none
+      | some (t2, outer) => some (t2, some (if af.outerCopyParent then outer else inner))
+
+/-- `with_scope_for_at_root` (visitor.rs:1214). -/
+def atRootScope (af : AsFound) (c : VCtx) (t : Tree) (q : Query) (included : List Nat)
+    (newParent : Option Nat) : VCtx :=
+  let dropMedia := c.mq.isSome && q.excludesName "media"
+  { parent := newParent,
+    styleRule := c.styleRule,
+    atRootExcl := c.atRootExcl || q.excludesStyleRules,
+    inUnknown := if af.keepInUnknown then c.inUnknown
+                 else c.inUnknown && included.any (fun i => ((kindAt t i).map Kind.isUnknown).getD false),
+    mq := if dropMedia then none else c.mq,
+    mqSources := if dropMedia then [] else c.mqSources }
+
+mutual
+  def visitStmt (af : AsFound) (c : VCtx) (t : Tree) : Stmt → Except Err Tree
+    | .decl d =>
+      -- visitor.rs:3025
+      if !c.styleRuleExists && !c.inUnknown then .error .declOutsideRule
+      else .ok (addDecls t c.parent (visitDecl none d))
+    | .rule sel body =>
+      -- visitor.rs:2952
+      match resolveList c.styleRule (!c.atRootExcl) sel with
+      | .error e => .error e
+      | .ok sel' =>
+        let (t1, idx) := addChild t c.parent (.rule sel') .styleRule
+        visitStmts af { c with parent := some idx, styleRule := some sel', atRootExcl := false } t1 body
+    | .media qs body =>
+      -- visitor.rs:1386–1407
+      let merged := c.mq.map (fun cur => mergeQ cur qs)
+      if merged == some [] then .ok t
+      else
+        let sources := match merged with
+          | some _ => (c.mqSources ++ c.mq.getD []) ++ qs
+          | none => []
+        let query := merged.getD qs
+        let (t1, idx) := addChild t c.parent (.media query) (.media sources)
+        let c1 := { c with parent := some idx, mq := some query, mqSources := sources }
+        if !c.styleRuleExists then visitStmts af c1 t1 body
+        else
+          match c.styleRule with
+          | none => .error .unreachable
+          | some sel =>
+            let (t2, idx2) := addChild t1 (some idx) (.rule sel) .never
+            visitStmts af { c1 with parent := some idx2 } t2 body
+    | .supports cond body =>
+      -- visitor.rs:484
+      let (t1, idx) := addChild t c.parent (.supports cond) .styleRule
+      let c1 := { c with parent := some idx }
+      if !c.styleRuleExists then visitStmts af c1 t1 body
+      else
+        match c.styleRule with
+        | none => .error .unreachable
+        | some sel =>
+          let (t2, idx2) := addChild t1 (some idx) (.rule sel) .never
+          visitStmts af { c1 with parent := some idx2 } t2 body
+    | .unknown n p body =>
+      -- visitor.rs:1479 (names are never `keyframes` here: the driver rejects them)
+      let (t1, idx) := addChild t c.parent (.unknown n p) .styleRule
+      let c1 := { c with parent := some idx, inUnknown := true }
+      if !c.styleRuleExists then visitStmts af c1 t1 body
+      else
+        match c.styleRule with
+        | none => .error .unreachable
+        | some sel =>
+          let (t2, idx2) := addChild t1 (some idx) (.rule sel) .never
+          visitStmts af { c1 with parent := some idx2 } t2 body
+    | .atroot q body =>
+      -- visitor.rs:1119
+      let q := q.getD Query.dflt
+      let included := includedFrom t q t.length c.parent
+      match trimIncluded t c.parent included with
+      | none => .error .unreachable
+      | some root =>
+        if some root == c.parent then visitStmts af c t body
+        else
+          match atRootParent af t root included with
+          | none => .error .unreachable
+          | some (t1, newParent) => visitStmts af (atRootScope af c t q included newParent) t1 body
+  def visitStmts (af : AsFound) (c : VCtx) (t : Tree) : Stmts → Except Err Tree
+    | .nil => .ok t
+    | .cons s ss =>
+      match visitStmt af c t s with
+      | .error e => .error e
+      | .ok t' => visitStmts af c t' ss
+end
+
+def treeBuild (af : AsFound) (src : Stmts) : Except Err Tree := visitStmts af VCtx.init Tree.init src
+
+/-! ### finish (css_tree.rs:43) -/
+
+mutual
+  inductive Css where
+    | mk (k : Kind) (body : CssList)
+  inductive CssList where
+    | nil
+    | cons (c : Css) (cs : CssList)
+end
+
+def CssList.snoc : CssList → Css → CssList
+  | .nil, x => .cons x .nil
+  | .cons c cs, x => .cons c (cs.snoc x)
+
+def CssList.toList : CssList → List Css
+  | .nil => []
+  | .cons c cs => c :: cs.toList
+
+def Css.kind : Css → Kind | .mk k _ => k
+def Css.body : Css → CssList | .mk _ b => b
+def Css.push : Css → Css → Css | .mk k b, c => .mk k (b.snoc c)
+
+abbrev FState := List (Option Css)
+
+/-- `stmts[child].take()` then `add_child_to_parent` (css_tree.rs:69,80); `none` = `unreachable!()`. -/
+def takeInto (s : FState) (child parent : Nat) : Option FState :=
+  match s[child]? with
+  | some (some c) =>
+    match s[parent]? with
+    | some (some (.mk (.decl _ _) _)) => none
+    | some (some p) => some ((s.set child none).set parent (some (p.push c)))
+    | _ => none
+  | _ => some s
+
+/-- `apply_children` (css_tree.rs:63); the recursion follows the child map, hence the fuel. -/
+def applyChildren (t : Tree) : Nat → Nat → FState → Option FState
+  | 0, _, _ => none
+  | f + 1, p, s =>
+    (childrenOf t p).foldlM (fun s c =>
+      match (if hasChildren t c then applyChildren t f c s else some s) with
+      | none => none
+      | some s1 => takeInto s1 c p) s
+
+def finishLoop (t : Tree) : List Nat → FState → Option FState
+  | [], s => some s
+  | i :: is, s =>
+    if ((s[i]?).join).isNone || !hasChildren t i then finishLoop t is s
+    else match applyChildren t t.length i s with
+      | none => none
+      | some s' => finishLoop t is s'
+
+/-- `CssTree::finish`: indices `1 … len-2` (the loop bound is `idx < len - 1`). -/
+def finish (t : Tree) : Option (List Css) :=
+  (finishLoop t ((List.range (t.length - 1)).drop 1) (t.map (fun r => r.stmt.map (Css.mk · .nil)))).map
+    (fun s => s.filterMap id)
+
+/-! ### what is written: invisible statements are skipped (lib.rs:205, serializer.rs:1113) -/
+
+mutual
+  /-- `CssStmt::is_invisible` (css.rs:54); selectors here are never placeholders. -/
+  def isInvisible : Css → Bool
+    | .mk (.rule _) body => allInvisible body
+    | .mk (.decl _ _) _ => false
+    | .mk (.media _) body => allInvisible body
+    | .mk (.supports _) body => allInvisible body
+    | .mk (.unknown _ _) _ => false
+  def allInvisible : CssList → Bool
+    | .nil => true
+    | .cons c cs => isInvisible c && allInvisible cs
+end
+
+def declsIn : CssList → List (String × String)
+  | .nil => []
+  | .cons (.mk (.decl n v) _) cs => (n, v) :: declsIn cs
+  | .cons _ cs => declsIn cs
+
+mutual
+  /-- The block list of what the serializer writes, read the way tools/cssread.py `flat_rules`
+      reads it: declarations directly inside a node form one block, nested nodes follow. -/
+  def blocksOf (ctx : List Kind) : Css → List Block
+    | .mk (.decl _ _) _ => []
+    | .mk (.rule sel) body =>
+      if allInvisible body then []
+      else { ctx := ctx, sel := some sel, decls := declsIn body } :: blocksOfList (ctx ++ [.rule sel]) body
+    | .mk (.media qs) body =>
+      if allInvisible body then []
+      else (if (declsIn body).isEmpty then [] else [{ ctx := ctx ++ [.media qs], sel := none, decls := declsIn body }])
+            ++ blocksOfList (ctx ++ [.media qs]) body
+    | .mk (.supports s) body =>
+      if allInvisible body then []
+      else (if (declsIn body).isEmpty then [] else [{ ctx := ctx ++ [.supports s], sel := none, decls := declsIn body }])
+            ++ blocksOfList (ctx ++ [.supports s]) body
+    | .mk (.unknown n p) body =>
+      (if (declsIn body).isEmpty then [] else [{ ctx := ctx ++ [.unknown n p], sel := none, decls := declsIn body }])
+            ++ blocksOfList (ctx ++ [.unknown n p]) body
+  def blocksOfList (ctx : List Kind) : CssList → List Block
+    | .nil => []
+    | .cons c cs => blocksOf ctx c ++ blocksOfList ctx cs
+end
+
+def blocksTop : List Css → List Block
+  | [] => []
+  | c :: cs => blocksOf [] c ++ blocksTop cs
+
+/-- Observation of a finished tree. -/
+def observeTree (t : Tree) : Except Err (List Block) :=
+  match finish t with
+  | none => .error .unreachable
+  | some cs => .ok (blocksTop cs)
+
+def observe (r : Except Err Tree) : Except Err (List Block) :=
+  match r with
+  | .error e => .error e
+  | .ok t => observeTree t
+
+/-- The whole pipeline of the code as modelled. -/
+def compile (af : AsFound) (src : Stmts) : Except Err (List Block) := observe (treeBuild af src)
+
+/-- P̂: the observed block list is the one flattening by hand yields. -/
+def specHolds (src : Stmts) (obs : Except Err (List Block)) : Bool :=
+  match flattenSpec src, obs with
+  | .ok a, .ok b => a == b
+  | .error _, .error _ => true
+  | _, _ => false
+
+/-! ## Rendering (driver side only) -/
+
+def renderCompound (c : Compound) : String :=
+  (match c.par with | none => "" | some none => "&" | some (some s) => "&" ++ s) ++ String.join c.simples
+
+def renderComp : Comp → String
+  | .comb c => c
+  | .cmp c => renderCompound c
+
+def renderComplex (c : Complex) : String := " ".intercalate (c.map renderComp)
+def renderSel (l : SelList) : String := ", ".intercalate (l.map renderComplex)
+
+def renderKind : Kind → String
+  | .rule sel => renderSel sel
+  | .decl n v => n ++ ": " ++ v
+  | .media qs => "@media " ++ ", ".intercalate (qs.map (fun q => " and ".intercalate (q.map (fun n => s!"(f{n})"))))
+  | .supports c => "@supports " ++ c
+  | .unknown n p => "@" ++ n ++ (if p.isEmpty then "" else " " ++ p)
+
+/-- A block as the CSS reader reports it: preludes and selector as text. -/
+structure RBlock where
+  ctx : List String
+  sel : Option String
+  decls : List (String × String)
+  deriving DecidableEq, Repr
+
+def Block.render (b : Block) : RBlock :=
+  { ctx := b.ctx.map renderKind, sel := b.sel.map renderSel, decls := b.decls }
+
+/-- P̂ on text: used by the driver on the implementation's own output. -/
+def specHoldsText (src : Stmts) (obs : Except Err (List RBlock)) : Bool :=
+  match flattenSpec src, obs with
+  | .ok a, .ok b => a.map Block.render == b
+  | .error _, .error _ => true
+  | _, _ => false
+
+/-! ## Driver protocol
+
+  tree   := <k> stmt^k
+  stmt   := D decl | R <sel> <k> stmt^k | M <queries> <k> stmt^k | S <hex cond> <k> stmt^k
+          | U <name> <hex params> <k> stmt^k | A <query> <k> stmt^k
+  decl   := <name> <value|_> <k> decl^k
+  sel    := complex{,complex}    complex := comp{/comp}    comp := > | + | ~ | compound
+  compound := (_ | & | &suffix){:simple}
+  queries := q{,q}   q := n{.n}
+  query  := _ | w:name{.name} | o:name{.name}
+  blocks := <n> { <nctx> <hex>^nctx <hex sel|_> <ndecl> (<hex name> <hex value>)^ndecl }^n
+-/
+open Grass.Proto
+
+def parseCompound (s : String) : Option Compound :=
+  match s.splitOn ":" with
+  | [] => none
+  | h :: rest =>
+    let par : Option (Option (Option String)) :=
+      if h == "_" then some none
+      else if h == "&" then some (some none)
+      else if h.startsWith "&" then some (some (some (h.drop 1).toString))
+      else none
+    match par with
+    | none => none
+    | some p => if rest.any (· == "") then none else some { par := p, simples := rest }
+
+def parseComp (s : String) : Option Comp :=
+  if s == ">" || s == "+" || s == "~" then some (.comb s) else (parseCompound s).map .cmp
+
+def parseSel (s : String) : Option SelList :=
+  (s.splitOn ",").mapM (fun c => (c.splitOn "/").mapM parseComp)
+
+def parseQueries (s : String) : Option (List (List Nat)) :=
+  (s.splitOn ",").mapM (fun q => (q.splitOn ".").mapM (·.toNat?))
+
+def parseQuery (s : String) : Option (Option Query) :=
+  if s == "_" then some none
+  else if s.startsWith "w:" then some (some { incl := true, names := ((s.drop 2).toString.splitOn ".") })
+  else if s.startsWith "o:" then some (some { incl := false, names := ((s.drop 2).toString.splitOn ".") })
+  else none
+
+mutual
+  def parseDecl : Nat → List String → Option (Decl × List String)
+    | 0, _ => none
+    | f + 1, n :: v :: k :: rest =>
+      match k.toNat? with
+      | none => none
+      | some k =>
+        match parseDecls f k rest with
+        | none => none
+        | some (body, rest') => some (.mk n (if v == "_" then none else some v) body, rest')
+    | _, _ => none
+  def parseDecls : Nat → Nat → List String → Option (Decls × List String)
+    | 0, _, _ => none
+    | _, 0, toks => some (.nil, toks)
+    | f + 1, k + 1, toks =>
+      match parseDecl f toks with
+      | none => none
+      | some (d, rest) =>
+        match parseDecls f k rest with
+        | none => none
+        | some (ds, rest') => some (.cons d ds, rest')
+end
+
+def unvendor (s : String) : String :=
+  -- `-x-keyframes` → `keyframes`
+  if s.startsWith "-" then
+    match (s.drop 1).toString.splitOn "-" with
+    | _ :: rest@(_ :: _) => "-".intercalate rest
+    | _ => s
+  else s
+
+mutual
+  def parseStmt : Nat → List String → Option (Stmt × List String)
+    | 0, _ => none
+    | f + 1, "D" :: rest =>
+      match parseDecl f rest with
+      | none => none
+      | some (d, rest') => some (.decl d, rest')
+    | f + 1, "R" :: sel :: k :: rest =>
+      match parseSel sel, k.toNat? with
+      | some sel, some k => (parseStmts f k rest).map (fun (b, r) => (.rule sel b, r))
+      | _, _ => none
+    | f + 1, "M" :: qs :: k :: rest =>
+      match parseQueries qs, k.toNat? with
+      | some qs, some k => (parseStmts f k rest).map (fun (b, r) => (.media qs b, r))
+      | _, _ => none
+    | f + 1, "S" :: cond :: k :: rest =>
+      match hexDecode cond, k.toNat? with
+      | some cond, some k => (parseStmts f k rest).map (fun (b, r) => (.supports cond b, r))
+      | _, _ => none
+    | f + 1, "U" :: n :: p :: k :: rest =>
+      match hexDecode p, k.toNat? with
+      | some p, some k =>
+        if unvendor n.toLower == "keyframes" then none
+        else (parseStmts f k rest).map (fun (b, r) => (.unknown n p b, r))
+      | _, _ => none
+    | f + 1, "A" :: q :: k :: rest =>
+      match parseQuery q, k.toNat? with
+      | some q, some k => (parseStmts f k rest).map (fun (b, r) => (.atroot q b, r))
+      | _, _ => none
+    | _, _ => none
+  def parseStmts : Nat → Nat → List String → Option (Stmts × List String)
+    | 0, _, _ => none
+    | _, 0, toks => some (.nil, toks)
+    | f + 1, k + 1, toks =>
+      match parseStmt f toks with
+      | none => none
+      | some (s, rest) =>
+        match parseStmts f k rest with
+        | none => none
+        | some (ss, rest') => some (.cons s ss, rest')
+end
+
+/-- `<k> stmt^k`, returning the unread tokens. -/
+def parseTree (toks : List String) : Option (Stmts × List String) :=
+  match toks with
+  | k :: rest =>
+    match k.toNat? with
+    | some k => parseStmts (toks.length + 1) k rest
+    | none => none
+  | [] => none
+
+def encBlock (b : RBlock) : String :=
+  " ".intercalate ([toString b.ctx.length] ++ b.ctx.map hexEncode ++ [match b.sel with | some s => hexEncode s | none => "_"]
+    ++ [toString b.decls.length] ++ b.decls.flatMap (fun (n, v) => [hexEncode n, hexEncode v]))
+
+def errStr : Err → String
+  | .topLevelParent => "topLevelParent"
+  | .incompatibleParent => "incompatibleParent"
+  | .declOutsideRule => "declOutsideRule"
+  | .unreachable => "unreachable"
+
+def encRes (r : Except Err (List Block)) : String :=
+  match r with
+  | .error e => "E " ++ errStr e
+  | .ok bs => " ".intercalate (["B", toString bs.length] ++ bs.map (fun b => encBlock b.render))
+
+def takeHex : Nat → List String → Option (List String × List String)
+  | 0, toks => some ([], toks)
+  | k + 1, h :: rest =>
+    match hexDecode h, takeHex k rest with
+    | some s, some (ss, r) => some (s :: ss, r)
+    | _, _ => none
+  | _, [] => none
+
+def takePairs : Nat → List String → Option (List (String × String) × List String)
+  | 0, toks => some ([], toks)
+  | k + 1, a :: b :: rest =>
+    match hexDecode a, hexDecode b, takePairs k rest with
+    | some a, some b, some (ps, r) => some ((a, b) :: ps, r)
+    | _, _, _ => none
+  | _, _ => none
+
+def decBlocks : Nat → List String → Option (List RBlock)
+  | 0, [] => some []
+  | 0, _ => none
+  | n + 1, nctx :: rest =>
+    match nctx.toNat? with
+    | none => none
+    | some nctx =>
+      match takeHex nctx rest with
+      | some (ctx, sel :: nd :: rest') =>
+        match (if sel == "_" then some none else (hexDecode sel).map some), nd.toNat? with
+        | some sel, some nd =>
+          match takePairs nd rest' with
+          | some (ds, rest'') => (decBlocks n rest'').map (fun bs => { ctx := ctx, sel := sel, decls := ds } :: bs)
+          | none => none
+        | _, _ => none
+      | _ => none
+  | _, [] => none
+
+/-- `B <n> blocks` | `E` (the implementation reported an error) -/
+def decObs (toks : List String) : Option (Except Err (List RBlock)) :=
+  match toks with
+  | ["E"] => some (.error .unreachable)
+  | "B" :: n :: rest =>
+    match n.toNat? with
+    | some n => (decBlocks n rest).map .ok
+    | none => none
+  | _ => none
+
+/-- `finish` agrees with the non-mutating reading of the child map (run-time cross-check). -/
+def afOf (a b : String) : Option AsFound :=
+  match parseBool? a, parseBool? b with
+  | some a, some b => some { outerCopyParent := a, keepInUnknown := b }
+  | _, _ => none
+
 def handle : List String → String
+  | "spec" :: toks =>
+    match parseTree toks with
+    | some (src, []) => "ok " ++ encRes (flattenSpec src)
+    | _ => "bad-op"
+  | "build" :: a :: b :: toks =>
+    match afOf a b, parseTree toks with
+    | some af, some (src, []) => "ok " ++ encRes (compile af src)
+    | _, _ => "bad-op"
+  | "run" :: toks =>
+    -- spec | code as it stands | specified | only outerCopyParent repaired | only keepInUnknown repaired
+    match parseTree toks with
+    | some (src, []) =>
+      "ok " ++ " | ".intercalate
+        [encRes (flattenSpec src), encRes (compile AsFound.code src), encRes (compile AsFound.specified src),
+         encRes (compile { outerCopyParent := false, keepInUnknown := true } src),
+         encRes (compile { outerCopyParent := true, keepInUnknown := false } src)]
+    | _ => "bad-op"
+  | "check" :: toks =>
+    -- check <tree> <obs>: P̂ on the implementation's observation
+    match parseTree toks with
+    | some (src, rest) =>
+      match decObs rest with
+      | some obs => if specHoldsText src obs then "ok holds" else "ok fails"
+      | none => "bad-op"
+    | none => "bad-op"
+  | "resolve" :: implicit :: parent :: child :: [] =>
+    match parseBool? implicit, (if parent == "-" then some none else (parseSel parent).map some), parseSel child with
+    | some i, some p, some c =>
+      match resolveList p i c with
+      | .ok r => "ok " ++ hexEncode (renderSel r)
+      | .error e => "ok E " ++ errStr e
+    | _, _, _ => "bad-op"
   | _ => "bad-op"
 
 end Grass.CssTree
